@@ -674,7 +674,7 @@ pub fn run(report: &Report, tier: &Tier) {
          0..6 ms; distinct by full case description (A) / (clients, calls, delay bucket) (B)",
     );
     report.assume("Part B samples OS schedules; the daemon itself is single-threaded, so queue position and iteration boundary are the schedule dimensions that reach its state");
-    for r in ["X1", "X2", "X3", "X3-after", "X4", "X5", "X6", "X3b", "X4b", "X4-during-cleanup"] {
+    for r in ["X1", "X2", "X3", "X3-after", "X4", "X5", "X6", "X3b", "X4b", "X4-during-cleanup", "X2-slow-consumer"] {
         report.floor(r, 10);
     }
     let seed = report.seed;
@@ -721,6 +721,11 @@ pub fn run(report: &Report, tier: &Tier) {
     let n2: u64 = if tier.thorough { 120_000 } else { 800 };
     run_parallel(report, n2, threads(), tier.budget_s * 0.1, |i, l| {
         cleanup_race_case(util::mix(seed, 0xC14_E000 + i), l);
+    });
+    // Part A3: unread events in the channel when shutdown comes
+    let n3: u64 = if tier.thorough { 10_000 } else { 200 };
+    run_parallel(report, n3, threads(), tier.budget_s * 0.05, |i, l| {
+        slow_consumer_case(util::mix(seed, 0xC14_F000 + i), l);
     });
     // Part B
     let real: u64 = if tier.thorough { 40_000 } else { 300 };
@@ -836,6 +841,64 @@ pub fn cleanup_race_case(seed: u64, l: &mut Local) {
             )
             .with(json!({"seed": seed, "services": services, "searches": searches, "issued_at_datagram": k, "calls": names, "trace": scen::witness(&w.trace, 30)})),
         );
+    }
+}
+
+// ---------------------------------------------------------------------------
+// Part A3: a slow consumer. The browse channel holds ten events; an application that has not read them yet
+// when shutdown comes still gets its SearchStopped once it reads on (the daemon waits for room, as it does for
+// every other event).
+
+pub fn slow_consumer_case(seed: u64, l: &mut Local) {
+    l.evaluations += 1;
+    let mut rng = Rng::new(seed);
+    let mut w = World::new(seed);
+    w.set_stepping(Stepping::Lazy);
+    let h = w.add_host(scen::single_v4());
+    w.set_ip_check_interval(h, 3600);
+    let Some(chan) = w.browse(h, T1) else { return };
+    w.settle();
+    w.chans[chan].paused = true;
+    // SearchStarted may or may not have been read; every instance brings Found + Resolved
+    let instances = 4 + rng.usize(2);
+    for k in 0..instances {
+        let s = scen::Svc::new(T1, &format!("slow{k}"), &format!("slow{k}-host.local"), [10, 0, 0, 80 + k as u8]);
+        w.inject_msg(h, 2, scen::peer4(80 + k as u8), &s.announce());
+        w.run_for(20 + rng.below(100));
+    }
+    let second = if rng.chance(1, 2) { w.resolve_hostname(h, HOSTNAME, None) } else { None };
+    if let Some(c) = second {
+        w.chans[c].paused = true;
+    }
+    let unread_before = w.chans[chan].received;
+    let sd = w.shutdown(h);
+    w.settle();
+    w.run_for(300);
+    for c in w.chans.iter_mut() {
+        c.paused = false;
+    }
+    w.drain(h);
+    l.distinct.insert(util::fnv_str(&format!("A3|{instances}|{}", second.is_some())));
+    if w.trace.deaths().any(|d| matches!(d.ev, Ev::Death { panicked: true, .. })) {
+        l.violate(Violation::new("X5", "X5/daemon-panicked/slow-consumer", "the daemon thread panicked during shutdown with a slow consumer").with(json!({"seed": seed})));
+        return;
+    }
+    if sd.is_none() || !w.hosts[h].dead {
+        l.inconclusive.push(format!("shutdown did not end the daemon thread in a slow-consumer scenario (seed {seed})"));
+        return;
+    }
+    l.act("X2-slow-consumer");
+    for (c, what) in [(Some(chan), "browse"), (second, "resolve_hostname")] {
+        let Some(c) = c else { continue };
+        let events: Vec<&Obs> = w.trace.obs(c).map(|(_, o)| o).collect();
+        let stopped = events.iter().filter(|o| matches!(o, Obs::SearchStopped(_) | Obs::HStopped(_))).count();
+        if stopped != 1 {
+            l.violate(
+                Violation::new("X2", format!("X2/search-not-stopped-once/slow-consumer/{what}"), format!("the {what} channel held {} unread events when shutdown came; after reading on it saw SearchStopped {stopped} times ({} events in all)", w.chans[c].received - unread_before.min(w.chans[c].received), events.len()))
+                    .with(json!({"seed": seed, "instances": instances, "events": events.iter().map(|o| format!("{o:?}").chars().take(60).collect::<String>()).collect::<Vec<_>>()})),
+            );
+            return;
+        }
     }
 }
 
